@@ -67,8 +67,8 @@ Conv(type, jv) ==
          ELSE IF k = "s" /\ v \in DOMAIN Num16 /\ Num16[v] >= 0 THEN <<"set", HexStr[ToString(Num16[v])]>>
          ELSE <<"error", "">>
     [] type = "float" -> IF k \in {"i", "f", "s"} /\ v \in DOMAIN NumF THEN <<"set", v>> ELSE <<"error", "">>
-    [] type = "int" -> IF k \in {"i", "s"} THEN <<"set", v>> ELSE <<"error", "">>
-    [] OTHER -> IF k \in {"s", "i", "f"} THEN <<"set", v>> ELSE <<"error", "">>
+    [] type = "int" -> IF k \in {"i", "s", "f"} THEN <<"set", v>> ELSE <<"error", "">>
+    [] OTHER -> IF k = "s" THEN <<"set", v>> ELSE <<"error", "">>   \* (numbers for a string option: left open, not sent)
 
 \* one pass: everything that is visible now is assigned (in request order), the rest waits
 RECURSIVE SetLoop(_, _, _, _, _)
@@ -128,4 +128,37 @@ Handle(X, ord, R, Menus, st, req) ==
                 THEN [r3.st EXCEPT !.path = sp, !.files = [@ EXCEPT ![sp] = Render(X, A3, r3.st.U, r3.st.P)]]
                 ELSE r3.st
     IN [st |-> s4, errs |-> r2.errs + r3.errs]
+
+----------------------------------------------------------------------------
+(* C15: requests whose parts may be arbitrary JSON.  A part is              *)
+(*   ver   : <<"ok", n>> | <<"bad", kind>>                                  *)
+(*   load, save : <<"absent">> | <<"null">> | <<"path", k>> | <<"bad", kind>> | <<"nofile", k>> *)
+(*   set   : <<"absent">> | <<"bad", kind>> | <<"obj", seq of <<name, jv>>>> *)
+(*   reset : <<"absent">> | <<"bad", kind>> | <<"list", seq of <<"s", id>> or <<"bad", kind>>>> *)
+(* and a line is <<"req", record>> | <<"badjson">> | <<"nonobj", kind>>.     *)
+(* The normative behaviour: every line gets exactly one reply; a part that  *)
+(* cannot be applied is as if it had not been sent (and the rest of the     *)
+(* request proceeds); a request without a usable version has no effect.     *)
+PathPart(p) == IF p[1] = "null" THEN 0 ELSE IF p[1] = "path" THEN p[2] ELSE 0 - 1
+Sanitize(line) ==
+  IF line[1] # "req" \/ line[2].ver[1] # "ok"
+    THEN [ver |-> 3, load |-> 0 - 1, set |-> <<>>, reset |-> <<>>, save |-> 0 - 1]
+  ELSE LET r == line[2] IN
+       [ver |-> r.ver[2], load |-> PathPart(r.load), save |-> PathPart(r.save),
+        set |-> IF r.set[1] = "obj" THEN r.set[2] ELSE <<>>,
+        reset |-> IF r.reset[1] = "list" /\ \A k \in 1..Len(r.reset[2]) : r.reset[2][k][1] = "s"
+                    THEN [k \in 1..Len(r.reset[2]) |-> r.reset[2][k][2]] ELSE <<>>]
+
+\* must the reply carry an error entry?  (wrong-typed values inside `set` may also be silently ignored)
+MustReport(X, Menus, line) ==
+  \/ line[1] # "req"
+  \/ LET r == line[2] IN
+     \/ r.ver[1] = "bad" \/ (r.ver[1] = "ok" /\ (r.ver[2] < 1 \/ r.ver[2] > 3))
+     \/ r.load[1] \in {"bad", "nofile"} \/ r.save[1] \in {"bad", "nofile"}
+     \/ r.set[1] = "bad" \/ r.reset[1] = "bad"
+     \/ (r.set[1] = "obj" /\ \E k \in 1..Len(r.set[2]) : r.set[2][k][1] \notin DOMAIN X.s)
+     \/ (r.reset[1] = "list" /\ r.ver[1] = "ok" /\ r.ver[2] = 3
+         /\ \E k \in 1..Len(r.reset[2]) :
+              r.reset[2][k][1] = "bad"
+              \/ (r.reset[2][k][2] # "all" /\ r.reset[2][k][2] \notin DOMAIN X.s /\ r.reset[2][k][2] \notin DOMAIN Menus))
 =============================================================================
